@@ -24,7 +24,7 @@ for d in sorted(glob.glob('/verif/seeded/*')):
     if r.returncode != 0:
         print(name, 'patch failed', r.stdout, r.stderr); continue
     for cid in [prop] + meta.get('also_run', []):
-        env = dict(os.environ, VERIF_REPO=scratch, VERIF_NO_EVIDENCE='1', VERIF_SCRATCH='/tmp/vscratch-seed')
+        env = dict(os.environ, VERIF_REPO=scratch, VERIF_NO_EVIDENCE='1', VERIF_SCRATCH='/tmp/vscratch-seed.%d' % os.getpid())
         t0 = time.time()
         p = subprocess.run(['./check', cid, tier], cwd='/verif', env=env, capture_output=True, text=True)
         dt = time.time() - t0
@@ -35,6 +35,6 @@ for d in sorted(glob.glob('/verif/seeded/*')):
         print(*rows[-1], flush=True)
     json.dump(meta, open(d + '/meta.json', 'w'), indent=1)
     shutil.rmtree(scratch, ignore_errors=True)
-shutil.rmtree('/tmp/vscratch-seed', ignore_errors=True)
+shutil.rmtree('/tmp/vscratch-seed.%d' % os.getpid(), ignore_errors=True)
 missed = [r for r in rows if not r[3].startswith('caught')]
 print('TOTAL', len(rows), 'caught', len(rows) - len(missed), 'not caught', [(r[0], r[1], r[3]) for r in missed])
